@@ -214,9 +214,11 @@ pub fn run(env: &Env) -> i32 {
                 return Ok(());
             };
             let ops = decode_history(&gc.hist, &b.meta, &hp);
+            // a quarter of the cases leave the externals unbound (Ink fallbacks run instead)
             let cfg = HostCfg {
                 handler: gc.hist.first().map(|v| v & 1 == 1).unwrap_or(false),
                 allow_fallbacks: true,
+                bind_externals: if gc.hist.first().map(|v| (v >> 1) & 3 == 0).unwrap_or(false) { None } else { Some(true) },
                 ..HostCfg::default()
             };
             let case = json!({"source": b.src, "cfg": cfg_to_json(&cfg), "ops": ops_to_json(&ops), "rounds": rounds});
